@@ -244,6 +244,17 @@ def run(ctx):
             r1.check(ok_, f"xml_instance/setvalue[{cname}: default={default!r} classified {'dynamic' if dyn else 'static'}]", "exactly one of: literal node content (static) or setvalue action (dynamic)",
                      xi.loc(), why_fail=why_)
     static_default_verbatim(ctx, r1, "C10.R1")
+    # an image row's default: a file name gets the jr://images/ prefix, an expression is left as the expression it is
+    pid_ = ctx.func("pyxform.xls2json:process_image_default", "C10.R1")
+    for dflt, dyn_, want_ in (("pic.jpg", False, "jr://images/pic.jpg"), ("jr://images/pic.jpg", False, "jr://images/pic.jpg"), ("my pic-2.png", False, "jr://images/my pic-2.png"),
+                              ("${p}", True, "${p}"), ("concat('jr://images/', ${p})", True, "concat('jr://images/', ${p})"), ("if(${a} = 1, 'a.png', 'b.png')", True, "if(${a} = 1, 'a.png', 'b.png')")):
+        itp_ = ctx.interp("C10.R1", hooks={"fnname:default_is_dynamic": lambda i, a, k, n, dyn_=dyn_: dyn_})
+        itp_.reset([])
+        try:
+            got_ = itp_.call_function(pid_, [dflt], {}, None, pid_.node)
+        except Raised as e:
+            got_ = f"raises {e.exc_name}"
+        r1.check(got_ == want_, f"process_image_default[{dflt!r}, classified {'dynamic' if dyn_ else 'static'}]", f"-> {want_!r}", pid_.loc(), why_fail=repr(got_))
     # ------------------------------------------------------------------ R2
     r2 = Rule("C10", "C10.R2", "exactly two placements, partitioned by repeat ancestry", floor=6,
               necessary="a dynamic default emitted in both places (twice) or in neither (lost), or for another repeat's rows")
